@@ -403,6 +403,20 @@ class VC:
         return f"{tag}!{self.fresh}"
 
     def decide(self, z):
+        if getattr(self.e, "prune", False):
+            # feasibility pruning (optional): a branch whose condition contradicts the path condition and the base hypotheses is not explored
+            zs = z3.simplify(z)
+            if z3.is_true(zs) or z3.is_false(zs):
+                return z3.is_true(zs)
+            base = list(getattr(self.e, "base_hyps", [])) + list(self.pc)
+            s_ = z3.Solver()
+            s_.set("timeout", 2000)
+            s_.add(*base)
+            can_t = s_.check(z) != z3.unsat
+            can_f = s_.check(z3.Not(z)) != z3.unsat
+            if can_t != can_f:
+                self.pc.append(z if can_t else z3.Not(z))
+                return can_t
         if self.pos < len(self.decisions):
             d = self.decisions[self.pos]
         else:
@@ -660,6 +674,18 @@ class VC:
             return hit if op == "In" else not hit
         return CMPS[op](l, r)
 
+    def sub(self, value, index):
+        if isinstance(index, SymZ) and isinstance(value, (list, tuple)):
+            n = len(value)
+            for i in range(n):
+                if self.decide(index.z == i):
+                    return value[i]
+            for i in range(1, n + 1):          # Python's from-the-end indices
+                if self.decide(index.z == -i):
+                    return value[-i]
+            raise IndexError("list index out of range")
+        return value[index]
+
     def chain(self, ops, *thunks):
         """Python's chained comparison: the result is the first falsy comparison, else the last one"""
         left = thunks[0]()
@@ -831,6 +857,13 @@ class Instrument(ast.NodeTransformer):
     def visit_Assert(self, n):
         self.generic_visit(n)
         return self._t(n)
+
+    def visit_Subscript(self, n):
+        self.generic_visit(n)
+        # only LOADS with a plain (non-slice) index go through the hook: a symbolic integer index into a concrete sequence forks over its positions
+        if isinstance(n.ctx, ast.Load) and not isinstance(n.slice, (ast.Slice, ast.Tuple)):
+            return _hook("sub", n.value, n.slice)
+        return n
 
     def visit_IfExp(self, n):
         simple = all(isinstance(x, (ast.Constant, ast.Name)) for x in (n.body, n.orelse))
